@@ -17,21 +17,25 @@ EXTENDS VecConvert, Json, IOUtils
 
 Rec == ndJsonDeserialize(IOEnv.TRACE)
 
-VARIABLES l, bad, dead, sid, zst, tracked, cat
+VARIABLES l, bad, dead, sid, zst, tT, tU, cat
+\* tT / tU: the input / output element type has a destructor the harness can observe
 \* cat: property the ledger problems of this scenario are attributed to
 
-tvars == <<vvars, l, bad, dead, sid, zst, tracked, cat>>
+tvars == <<vvars, l, bad, dead, sid, zst, tT, tU, cat>>
 
 e == Rec[l]
 If(c, t) == IF c THEN {t} ELSE {}
 Consume(tags) ==
   /\ l' = l + 1
   /\ bad' = bad \cup {[tag |-> t, sid |-> sid, line |-> l] : t \in tags}
-Keep == UNCHANGED <<dead, sid, zst, tracked, cat>>
+Keep == UNCHANGED <<dead, sid, zst, tT, tU, cat>>
+Tr(k) == IF k = "T" THEN tT ELSE tU
+OwnedTracked == {x \in owned : Tr(x[1])}
+LiveTracked == {i \in LiveCells : Tr(cells[i].k)}
 
 TraceInit ==
   /\ VInit(0, FALSE, FALSE)
-  /\ l = 1 /\ bad = {} /\ dead = TRUE /\ sid = 0 /\ zst = FALSE /\ tracked = TRUE /\ cat = "C08"
+  /\ l = 1 /\ bad = {} /\ dead = TRUE /\ sid = 0 /\ zst = FALSE /\ tT = TRUE /\ tU = TRUE /\ cat = "C08"
 
 ------------------------------------------------------------------------------
 TraceScenario ==
@@ -45,7 +49,7 @@ TraceScenario ==
   /\ IF e.mismatch
      THEN pc' = "cleanup" /\ fail' = [kind |-> "panic", id |-> 0] /\ buffer' = "vec"     \* Refuse
      ELSE pc' = "loop" /\ fail' = <<>> /\ buffer' = "function"                           \* CheckOk
-  /\ dead' = FALSE /\ sid' = e.sid /\ zst' = e.zst /\ tracked' = e.tracked
+  /\ dead' = FALSE /\ sid' = e.sid /\ zst' = e.zst /\ tT' = e.trackedT /\ tU' = e.trackedU
   /\ cat' = IF e.mismatch THEN "C10" ELSE "C08"
   /\ l' = l + 1 /\ bad' = bad
 
@@ -75,7 +79,7 @@ TraceVc ==
 
 TraceCall ==
   /\ ~dead /\ e.ev = "call"
-  /\ UNCHANGED <<sid, zst, tracked, cat>>
+  /\ UNCHANGED <<sid, zst, tT, tU, cat>>
   /\ IF CanTake
      THEN /\ DoTakeCall
           /\ Consume(If(~zst /\ e.i # cells[firstTtt + 1].id, "C08:input-not-passed-in-order-exactly-once")
@@ -133,35 +137,23 @@ TraceDrop ==
 TraceConv ==
   /\ ~dead /\ e.ev = "conv" /\ Keep
   /\ IF pc # "incall" THEN UNCHANGED vvars /\ Consume({"H:converter-outcome-outside-a-call"})
-     ELSE IF ~tracked       \* elements without destructor: no drop events, nothing to own
-     THEN /\ owned' = {} /\ pending' = 0
-          /\ IF e.kind = "converted"
-             THEN /\ cells' = [cells EXCEPT ![firstMoved + 1] = [k |-> "U", id |-> e.out]]
-                  /\ firstMoved' = firstMoved + 1 /\ outs' = Append(outs, e.out)
-                  /\ pc' = "loop" /\ UNCHANGED fail
-             ELSE IF e.kind = "abandoned"
-             THEN pc' = "loop" /\ UNCHANGED <<cells, firstMoved, outs, fail>>
-             ELSE /\ pc' = "cleanup" /\ fail' = [kind |-> e.kind, id |-> e.fid]
-                  /\ UNCHANGED <<cells, firstMoved, outs>>
-          /\ UNCHANGED <<flags, n, mismatch, hasbuf, firstTtt, dT, dU, payload, nextU, calls, buffer, result>>
-          /\ Consume(If(e.kind = "converted" /\ cells[firstMoved + 1].k # "dead",
-                        "C08:three-region-invariant-broken"))
-     ELSE IF e.kind = "converted"
-     THEN IF owned = {<<"U", e.out>>} /\ cells[firstMoved + 1].k = "dead"
-          THEN \* ConvConverted composed with Store
-               /\ cells' = [cells EXCEPT ![firstMoved + 1] = [k |-> "U", id |-> e.out]]
-               /\ firstMoved' = firstMoved + 1 /\ outs' = Append(outs, e.out)
-               /\ owned' = {} /\ pending' = 0 /\ pc' = "loop"
-               /\ UNCHANGED <<flags, n, mismatch, hasbuf, firstTtt, dT, dU, payload, nextU, calls, buffer, fail, result>>
-               /\ Consume({})
-          ELSE UNCHANGED vvars /\ Consume({"H:converted-without-exactly-one-owned-output"})
-     ELSE IF e.kind = "abandoned"
-     THEN IF owned = {} THEN ConvAbandoned /\ Consume({})
-          ELSE UNCHANGED vvars /\ Consume({"H:converter-returned-still-owning-values"})
-     ELSE IF e.kind = "err"
-     THEN IF owned = {} THEN ConvErr(e.fid) /\ Consume({})
-          ELSE UNCHANGED vvars /\ Consume({"H:converter-returned-still-owning-values"})
-     ELSE ConvPanic(e.fid) /\ Consume({})
+     ELSE LET madeOk == (e.kind = "converted") => (<<"U", e.out>> \in owned)
+              left == IF e.kind = "converted" THEN OwnedTracked \ {<<"U", e.out>>} ELSE OwnedTracked
+          IN IF ~madeOk \/ (e.kind # "panic" /\ left # {})
+             THEN UNCHANGED vvars /\ Consume({"H:converter-returned-still-owning-values"})
+             ELSE /\ pending' = 0
+                  /\ IF e.kind = "converted"          \* ConvConverted composed with Store
+                     THEN /\ cells' = [cells EXCEPT ![firstMoved + 1] = [k |-> "U", id |-> e.out]]
+                          /\ firstMoved' = firstMoved + 1 /\ outs' = Append(outs, e.out)
+                          /\ pc' = "loop" /\ owned' = {} /\ UNCHANGED fail
+                     ELSE IF e.kind = "abandoned"      \* ConvAbandoned
+                     THEN pc' = "loop" /\ owned' = {} /\ UNCHANGED <<cells, firstMoved, outs, fail>>
+                     ELSE /\ pc' = "cleanup" /\ fail' = [kind |-> e.kind, id |-> e.fid]   \* ConvErr / ConvPanic
+                          /\ owned' = IF e.kind = "panic" THEN OwnedTracked ELSE {}
+                          /\ UNCHANGED <<cells, firstMoved, outs>>
+                  /\ UNCHANGED <<flags, n, mismatch, hasbuf, firstTtt, dT, dU, payload, nextU, calls, buffer, result>>
+                  /\ Consume(If(e.kind = "converted" /\ cells[firstMoved + 1].k # "dead",
+                                "C08:three-region-invariant-broken"))
 
 TraceDealloc ==
   /\ ~dead /\ e.ev = "dealloc" /\ Keep
@@ -170,7 +162,7 @@ TraceDealloc ==
                  nextU, outs, calls, fail, result>>
   /\ Consume(If(pc \in {"loop", "incall", "store"}, "C08:buffer-released-during-the-conversion")
         \cup If(buffer = "freed", Ledger("buffer-released-twice"))
-        \cup If(tracked /\ pc \in {"cleanup", "caller"} /\ LiveCells # {},
+        \cup If(pc \in {"cleanup", "caller"} /\ LiveTracked # {},
                 Ledger("buffer-released-before-its-elements-were-dropped")))
 
 TraceRet ==
@@ -199,7 +191,7 @@ TraceRet ==
                 \cup If(~mismatch /\ fail = <<>>, "C09:failure-reported-although-the-converter-did-not-fail")
                 \cup If(~mismatch /\ fail # <<>> /\ (e.kind # fail.kind \/ e.fid # fail.id),
                         "C09:caller-did-not-receive-the-very-error-or-panic-payload")
-                \cup If(tracked /\ (LiveCells # {} \/ owned # {}),
+                \cup If(LiveTracked # {} \/ OwnedTracked # {},
                         FailCat \o ":elements-not-all-dropped-when-the-failure-reached-the-caller")
                 \cup If(hasbuf /\ buffer # "freed",
                         FailCat \o ":buffer-not-released-when-the-failure-reached-the-caller"))
@@ -210,10 +202,10 @@ TraceEnd ==
   /\ UNCHANGED <<flags, n, mismatch, hasbuf, cells, firstMoved, firstTtt, owned, pending, dT, dU, payload,
                  nextU, outs, calls, buffer, fail, result>>
   /\ LET c == IF result # <<>> /\ result.kind # "ok" /\ ~mismatch THEN "C09" ELSE cat IN
-     Consume(If(tracked /\ \E i \in DOMAIN dT : dT[i] = 0, c \o ":input-element-never-dropped")
-        \cup If(tracked /\ \E i \in DOMAIN dT : dT[i] > 1, c \o ":input-element-dropped-twice")
-        \cup If(tracked /\ \E u \in DOMAIN dU : dU[u] = 0, c \o ":output-element-never-dropped")
-        \cup If(tracked /\ \E u \in DOMAIN dU : dU[u] > 1, c \o ":output-element-dropped-twice")
+     Consume(If(tT /\ \E i \in DOMAIN dT : dT[i] = 0, c \o ":input-element-never-dropped")
+        \cup If(tT /\ \E i \in DOMAIN dT : dT[i] > 1, c \o ":input-element-dropped-twice")
+        \cup If(tU /\ \E u \in DOMAIN dU : dU[u] = 0, c \o ":output-element-never-dropped")
+        \cup If(tU /\ \E u \in DOMAIN dU : dU[u] > 1, c \o ":output-element-dropped-twice")
         \cup If(hasbuf /\ buffer # "freed", c \o ":buffer-never-released")
         \cup If(result = <<>>, "H:no-result"))
 
